@@ -167,7 +167,7 @@ PROPS = {
         "theorems": ["Sheens.C01.match_sound", "Sheens.C01.Witness.sat", "Sheens.MatchTotal.satB_sound"],
         "facts": ["matcher_switches", "ineq_ops", "name_conventions"],
         "runs": {
-            "quick": [("match", ["-profile", "c01", "-n", "6000", "-reps", "3"])],
+            "quick": [("match", ["-profile", "c01", "-n", "30000", "-reps", "3"])],
             "thorough": [("match", ["-profile", "c01", "-n", "150000", "-reps", "4"]),
                          ("match", ["-profile", "c02", "-n", "60000", "-reps", "3"])],
         },
@@ -179,7 +179,7 @@ PROPS = {
         "theorems": [],
         "facts": ["matcher_switches", "name_conventions"],
         "runs": {
-            "quick": [("match", ["-profile", "c02", "-n", "6000", "-reps", "3"])],
+            "quick": [("match", ["-profile", "c02", "-n", "30000", "-reps", "3"])],
             "thorough": [("match", ["-profile", "c02", "-n", "150000", "-reps", "4"])],
         },
         "analyze": analyze_match(["planted"]),
@@ -190,7 +190,7 @@ PROPS = {
         "theorems": [],
         "facts": ["match_copies_first", "copyBindingss_copies", "matcher_branches_copy", "matcher_writes_only_locals_and_bindings"],
         "runs": {
-            "quick": [("match", ["-profile", "c03", "-n", "3000", "-reps", "24"])],
+            "quick": [("match", ["-profile", "c03", "-n", "8000", "-reps", "32"])],
             "thorough": [("match", ["-profile", "c03", "-n", "40000", "-reps", "64"])],
         },
         "analyze": analyze_match(["det", "probe"]),
@@ -202,7 +202,7 @@ PROPS = {
         "theorems": [],
         "facts": ["engine_constants", "name_conventions"],
         "runs": {
-            "quick": [("step", ["-profile", "step", "-n", "2500"]), ("walk", ["-profile", "walk", "-n", "1500"])],
+            "quick": [("step", ["-profile", "step", "-n", "8000"]), ("walk", ["-profile", "walk", "-n", "5000"])],
             "thorough": [("step", ["-profile", "step", "-n", "40000"]), ("walk", ["-profile", "walk", "-n", "20000"]),
                          ("step", ["-profile", "failing", "-n", "20000"])],
         },
@@ -216,7 +216,7 @@ PROPS = {
         "theorems": [],
         "facts": ["walk_accounting_sites"],
         "runs": {
-            "quick": [("walk", ["-profile", "walk", "-n", "3000"]), ("split", ["-profile", "split", "-n", "1200"])],
+            "quick": [("walk", ["-profile", "walk", "-n", "8000"]), ("split", ["-profile", "split", "-n", "3000"])],
             "thorough": [("walk", ["-profile", "walk", "-n", "50000"]), ("split", ["-profile", "split", "-n", "20000"])],
         },
         "analyze": analyze_generic,
@@ -229,7 +229,7 @@ PROPS = {
         "theorems": [],
         "facts": ["engine_writes_only_locals", "engine_mutators_on_fresh_maps", "step_returns_copies", "match_copies_first"],
         "runs": {
-            "quick": [("walk", ["-profile", "failing", "-n", "2500"]), ("step", ["-profile", "failing", "-n", "2000"])],
+            "quick": [("walk", ["-profile", "failing", "-n", "7000"]), ("step", ["-profile", "failing", "-n", "6000"])],
             "thorough": [("walk", ["-profile", "failing", "-n", "40000"]), ("step", ["-profile", "failing", "-n", "40000"]),
                          ("walk", ["-profile", "walk", "-n", "20000"])],
         },
@@ -243,8 +243,9 @@ PROPS = {
         "theorems": [],
         "facts": ["walk_defaults_nil_control", "exec_writeback_guarded"],
         "runs": {
-            "quick": [("walk", ["-profile", "failing", "-n", "2500"]), ("step", ["-profile", "timeouts", "-n", "400"]),
-                      ("match", ["-profile", "c03", "-n", "1500", "-reps", "2"]), ("compile", ["-n", "300"])],
+            "quick": [("walk", ["-profile", "failing", "-n", "6000"]), ("step", ["-profile", "timeouts", "-n", "400"]),
+                      ("match", ["-profile", "c03", "-n", "5000", "-reps", "2"]), ("compile", ["-n", "1000"]),
+                      ("step", ["-profile", "failing", "-n", "4000"])],
             "thorough": [("walk", ["-profile", "failing", "-n", "40000"]), ("step", ["-profile", "timeouts", "-n", "3000"]),
                          ("step", ["-profile", "failing", "-n", "40000"]), ("match", ["-profile", "c03", "-n", "30000", "-reps", "2"]),
                          ("compile", ["-n", "6000"])],
@@ -259,7 +260,7 @@ PROPS = {
         "theorems": [],
         "facts": ["es_error_exits_nil_exe", "try_adds_no_guard_events"],
         "runs": {
-            "quick": [("walk", ["-profile", "failing", "-n", "2500"]), ("step", ["-profile", "failing", "-n", "1500"])],
+            "quick": [("walk", ["-profile", "failing", "-n", "7000"]), ("step", ["-profile", "failing", "-n", "5000"])],
             "thorough": [("walk", ["-profile", "failing", "-n", "50000"]), ("step", ["-profile", "failing", "-n", "30000"])],
         },
         "analyze": analyze_generic,
@@ -272,7 +273,7 @@ PROPS = {
         "theorems": [],
         "facts": ["exec_writeback_guarded", "name_conventions", "engine_constants"],
         "runs": {
-            "quick": [("walk", ["-profile", "permanent", "-n", "2500"]), ("step", ["-profile", "permanent", "-n", "2000"])],
+            "quick": [("walk", ["-profile", "permanent", "-n", "7000"]), ("step", ["-profile", "permanent", "-n", "6000"])],
             "thorough": [("walk", ["-profile", "permanent", "-n", "50000"]), ("step", ["-profile", "permanent", "-n", "30000"])],
         },
         "analyze": analyze_generic,
@@ -285,8 +286,8 @@ PROPS = {
         "theorems": [],
         "facts": [],
         "runs": {
-            "quick": [("crew", ["-profile", "crew", "-n", "700"]),
-                      ("mcrewgen", ["-profile", "mcrew", "-n", "100"], {"overlay": MCREW_OVERLAY})],
+            "quick": [("crew", ["-profile", "crew", "-n", "1500"]),
+                      ("mcrewgen", ["-profile", "mcrew", "-n", "150"], {"overlay": MCREW_OVERLAY})],
             "thorough": [("crew", ["-profile", "crew", "-n", "15000"]),
                          ("mcrewgen", ["-profile", "mcrew", "-n", "1000"], {"overlay": MCREW_OVERLAY})],
         },
@@ -300,7 +301,7 @@ PROPS = {
         "theorems": [],
         "facts": [],
         "runs": {
-            "quick": [("crew", ["-profile", "crew", "-n", "700"])],
+            "quick": [("crew", ["-profile", "crew", "-n", "2000"])],
             "thorough": [("crew", ["-profile", "crew", "-n", "15000"])],
         },
         "analyze": analyze_generic,
@@ -313,7 +314,7 @@ PROPS = {
         "theorems": [],
         "facts": [],
         "runs": {
-            "quick": [("mcrewgen", ["-profile", "mcrew", "-n", "150"], {"overlay": MCREW_OVERLAY})],
+            "quick": [("mcrewgen", ["-profile", "mcrew", "-n", "400"], {"overlay": MCREW_OVERLAY})],
             "thorough": [("mcrewgen", ["-profile", "mcrew", "-n", "1500"], {"overlay": MCREW_OVERLAY})],
         },
         "analyze": analyze_generic,
@@ -341,7 +342,7 @@ PROPS = {
         "theorems": [],
         "facts": [],
         "runs": {
-            "quick": [("expect", ["-n", "500"])],
+            "quick": [("expect", ["-n", "800"])],
             "thorough": [("expect", ["-n", "6000"])],
         },
         "analyze": analyze_generic,
@@ -359,7 +360,7 @@ PROPS = {
         "theorems": [],
         "facts": [],
         "runs": {
-            "quick": [("tools", ["-n", "1500"])],
+            "quick": [("tools", ["-n", "10000"])],
             "thorough": [("tools", ["-n", "40000"])],
         },
         "analyze": analyze_generic,
@@ -375,7 +376,7 @@ PROPS = {
         "theorems": [],
         "facts": [],
         "runs": {
-            "quick": [("compile", ["-n", "600"])],
+            "quick": [("compile", ["-n", "3000"])],
             "thorough": [("compile", ["-n", "10000"])],
         },
         "analyze": analyze_generic,
@@ -394,7 +395,7 @@ PROPS = {
         "theorems": [],
         "facts": [],
         "runs": {
-            "quick": [("persist", ["-n", "1200"]), ("walk", ["-profile", "persist", "-n", "800"])],
+            "quick": [("persist", ["-n", "2500"]), ("walk", ["-profile", "persist", "-n", "3000"])],
             "thorough": [("persist", ["-n", "30000"]), ("walk", ["-profile", "persist", "-n", "10000"])],
         },
         "analyze": analyze_generic,
@@ -409,7 +410,7 @@ PROPS = {
         "theorems": [],
         "facts": ["runtime_is_per_exec", "bindings_deep_copied"],
         "runs": {
-            "quick": [("isolation", ["-n", "150"]), ("walk", ["-profile", "failing", "-n", "500"])],
+            "quick": [("isolation", ["-n", "600"]), ("walk", ["-profile", "failing", "-n", "2000"])],
             "thorough": [("isolation", ["-n", "3000"]), ("walk", ["-profile", "failing", "-n", "5000"])],
         },
         "analyze": analyze_generic,
@@ -443,7 +444,7 @@ PROPS = {
         "theorems": [],
         "facts": ["specter_atomic", "engine_writes_only_locals", "matcher_writes_only_locals_and_bindings"],
         "runs": {
-            "quick": [("concurrent", ["-n", "250"])],
+            "quick": [("concurrent", ["-n", "1500"])],
             "thorough": [("concurrent", ["-n", "4000"])],
         },
         "analyze": analyze_generic,
